@@ -186,8 +186,20 @@ def check_query(text, kinds, sh=None):
     if r[0] == "bad":
         return violation("compile-not-total", {"query": text}, "returns or raises JSONPathError", r[1], "crash")
     if r[0] != "ok":
+        # the same rejected text handed to the same (default) environment again, through find():
+        # rejected again, with a JSONPathError
+        r2 = guarded(impl.jp.find, text, 1)
+        if r2[0] == "bad":
+            return violation("find-not-total", {"query": text, "second_submission": True},
+                             "raises JSONPathError again", r2[1], "crash")
+        if r2[0] == "ok":
+            return violation("find-not-total", {"query": text, "second_submission": True},
+                             "raises JSONPathError again", "accepted the second time", "crash")
         return None
     q = r[1]
+    if not hasattr(q, "find"):
+        return violation("compile-not-total", {"query": text}, "returns a compiled query or raises JSONPathError",
+                         "returned " + type(q).__name__, "crash")
     for i, doc in enumerate(placements(kinds)):
         f = guarded(q.find, doc)
         if sh is not None:
@@ -203,6 +215,8 @@ def check_case(case):
     old = sys.getrecursionlimit()
     sys.setrecursionlimit(1000)
     try:
+        if case.get("second_submission"):
+            return check_query(case["query"], [])
         if "doc" in case:
             r = guarded(impl.jp.compile, case["query"])
             if r[0] == "bad":
